@@ -23,7 +23,8 @@ EXPECTED_PROBES = ['ping_between_fragments', 'many_pings_one_read',
                    'pong_write_failed', 'app_write_after_pong_checked',
                    'violation_behind_pings', 'compression_negotiated',
                    'threaded_close_vs_pong', 'refused_close_call_then_pings',
-                   'two_connections_interleaved']
+                   'two_connections_interleaved',
+                   'unread_data_queued_at_failed_pong']
 
 
 TSLOT = 3000
@@ -382,15 +383,19 @@ def _judge(res, case, sc, enc, tr):
         marks = tr.world.fault_marks
         if marks:
             res.stats['probe:pong_write_failed'] += 1
-            _, _, k, delivered, _, _ = marks[0]
+            k, delivered, arrived = marks[0][2], marks[0][3], marks[0][6]
+            # everything that had reached the client's socket when the write
+            # failed is still readable (also after EPIPE / a reset)
             must = [e for e, end in zip(enc.expected, enc.expected_ends)
-                    if end + rlen <= delivered]
+                    if end + rlen <= arrived]
+            if arrived > delivered:
+                res.stats['probe:unread_data_queued_at_failed_pong'] += 1
             if got[:len(must)] != must:
                 res.bad('C14/fault/events_lost_after_failed_pong',
-                        '%d bytes had been read when Pong #%d failed; the %d '
-                        'messages complete in them must be delivered, got %d: '
-                        '%r' % (delivered, k - 1, len(must), len(got),
-                                names[-8:]))
+                        '%d bytes had arrived (%d read) when Pong #%d failed; '
+                        'the %d messages complete in them must be delivered, '
+                        'got %d: %r' % (arrived, delivered, k - 1, len(must),
+                                        len(got), names[-8:]))
             if got != enc.expected[:len(got)]:
                 res.bad('C14/fault/events_wrong', 'events %r' % names[-8:])
             disc = [e for e in tr.events if e.name == 'disconnected']
